@@ -136,6 +136,11 @@ def check_prims(ctx, rep):
         cmp("str ==", (s, p), model.call("prim_str", [0, cs, cp]), 1 if s == p else 0)
         cmp("str.startswith", (s, p), model.call("prim_str", [1, cs, cp]), 1 if s.startswith(p) else 0)
         cmp("str.endswith", (s, p), model.call("prim_str", [2, cs, cp]), 1 if s.endswith(p) else 0)
+        if model.call("prim_str", [4, [47], []]) == 1:      # entries of the later waves present
+            g = model.call("prim_str", [3, cs, cp])
+            cmp("str.lstrip", (s, p), "".join(chr(c) for c in g), s.lstrip(p) if p else s)   # lstrip('') strips nothing
+            import posixpath
+            cmp("os.path.isabs", s, model.call("prim_str", [4, cs, []]), 1 if posixpath.isabs(s) else 0)
     # ---------------- pathlib bindings used by generated code
     import pathlib
     segs = ["", ".", "..", "a", "a/b", "a/", "/", "//", "///", "/a", "//a", "/a/..", "../a", "b/./c", "..//..", "c:", "/a//b/"]
@@ -223,6 +228,19 @@ def _check_re(model, vlib, cmp, rng):
                     cmp("re.match(^([0-9]+)([%s]?)$, IGNORECASE) on U+%04X" % (letters, cs[k]), cs[k], got[k], want[k])
                 else:
                     cmp("re over code points", lo, 0, 0)
+    pat2 = re.compile("^[a-zA-Z]:")
+    if model.call("prim_re", [4, [], [99, 58]]) == 1:
+        for s in sorted(cases) + ["c:", "C:/x", "c", ":", "c:c:", "1:", "\u00e9:", "\uff43:", "cc:", " c:", "c :", "\nc:", "Z:", "[:", "`:", "{:", "@:"]:
+            cmp("re.match(^[a-zA-Z]:)", s, model.call("prim_re", [4, [], [ord(c) for c in s]]), 1 if pat2.match(s) else 0)
+        for lo in range(0, 0x110000, 0x4000):
+            cs = list(range(lo, lo + 0x4000))
+            got = model.call("prim_re", [5, [], cs])
+            want = [1 if pat2.match(chr(c) + ":") else 0 for c in cs]
+            if got != want:
+                k = next(i for i in range(len(cs)) if got[i] != want[i])
+                cmp("re.match(^[a-zA-Z]:) on U+%04X" % cs[k], cs[k], got[k], want[k])
+            else:
+                cmp("re alpha over code points", lo, 0, 0)
     # int(str): the primitive models strings of ASCII digits only (anything else: Err EUnsupported = code 4)
     for s in ["0", "00", "7", "0123", "99999999999999999999", "12", "0" * 4300, "0" * 4301, "1" * 4300, "1" * 4301, "9" * 5000,
               "", "1_0", " 1", "1 ", "+1", "-1", "\u0661", "\uff11\uff12", "1\n", "0x10", "1e3"]:
